@@ -122,19 +122,19 @@ CHECKS = {
     technique="Coq proofs: loop invariants (rolling-hash algebra, bit-level Shift-Or state, chunk scan) + differential correspondence (results, load/step traces)",
  ),
  "C13": dict(
-    text="C13_find / C13_finder / C13_rfind / C13_rfinder: for EVERY haystack, needle, address, architecture / CPU outcome, prefilter setting and "
-         "ranker, building the finder and searching performs at most 4905 * (|h| + 1) + 6 * |x| + 11 elementary steps forward and "
-         "70 * (|h| + 1) + 6 * |x| + 11 in reverse (steps = raw loads + loop ticks of the model's trace, the same events the hooks record and the "
-         "correspondence compares). Built from per-block cost theorems: memchr family 2|h|+16, memcmp n/2+4, Rabin-Karp |x|+(|h|+1)(|x|/2+6) (only "
+    text="C13_find / C13_finder / C13_searcher_reuse / C13_rfind / C13_rfinder: for EVERY haystack, needle, address, architecture / CPU outcome, prefilter "
+         "setting, ranker and incoming prefilter state, building the finder and searching performs at most 4906 * (|h| + 1) + 6 * |x| + 11 elementary steps "
+         "forward and 70 * (|h| + 1) + 6 * |x| + 11 in reverse (steps = raw loads + loop ticks of the model's trace, the same events the hooks record and "
+         "the correspondence compares). Built from per-block cost theorems: memchr family 2|h|+16, memcmp n/2+4, Rabin-Karp |x|+(|h|+1)(|x|/2+6) (only "
          "reached for haystacks below the generated thresholds 16/64), packed pair (|h|/16+2)(3+32(|x|/2+5)) with |x| capped by the generated "
          "packed_max_len (C13_params fails if MAX_LEN is raised beyond 64), Two-Way preprocessing 5|x|+8 and search 3|h|+|x|+3 by a potential "
-         "argument using the Tier-2 facts (critical position, period, large-shift lower bound), prefilters 19 per skipped byte + 4883 per call, "
-         "amortised against the adaptive PrefilterState. PARTIAL: forward search of a needle in Two-Way's small-period case with a prefilter "
-         "attached has only the product bound C13_find_small_period_partial ((|x|+4905)(|h|+1)); with the prefilter disabled the linear bound "
-         "holds for every needle (C13_finder_noprefilter). Complete iterator traversals are checked by the run-time oracle only.",
+         "argument using the Tier-2 facts (critical position, exact period, large-shift value), prefilters 19 per skipped byte + 4883 per call amortised "
+         "against the prefilter's skip; the small-period case WITH a prefilter (which throws the Two-Way memory away) by a Fine-Wilf spacing argument "
+         "(Sub/CostTwoWaySmall.v: two windows whose right part matches and whose left part fails are more than n-cp-p apart). "
+         "PARTIAL: complete iterator traversals are bounded by theorems only if Sub/CostIter.v is listed in coq/_CoqProject (C13_iter_*); otherwise by the run-time oracle.",
     design_ref="DESIGN.md section 0.5", note="Trusted: Coq kernel; the cost-exact hand-written model, tied to the code by comparing whole step traces (digests) on every run; "
-         "the placement of hooks (one event per load / loop iteration). No axioms. Partial: see text.",
-    technique="Coq proof: amortised (potential-function) step-cost bounds over the modelled loops, composed through the meta searcher + step-trace differential correspondence; growth families against the proved bound",
+         "the placement of hooks (one event per load / loop iteration). No axioms.",
+    technique="Coq proof: amortised (potential-function) step-cost bounds over the modelled loops incl. a Fine-Wilf periodicity argument, composed through the meta searcher + step-trace differential correspondence; growth families against the proved bound",
  ),
  "C14": dict(
     text="Props/C14.v: the model returns Ok (never Panic) for memmem::find/rfind, Finder/FinderRev for every prefilter configuration, ranker and CPU, "
